@@ -178,7 +178,7 @@ theorem links_are_urls_concrete (hpuny : PunyLabelSafe W.puny) (base : Str) (hre
     (hreg : ResolvedInRegion W canonicalize unique sf base hrefs) :
     ∀ l ∈ (linksFromHtmlConcrete W canonicalize unique sf base hrefs).1, isUrlC W l = true := by
   intro l hl
-  obtain ⟨b, h, u, h1, h2, _, _, h5, h6, h7, _⟩ :=
+  obtain ⟨b, h, u, h1, h2, _, _, h5, h6, h7, _, _⟩ :=
     links_chain (concreteEnv W sf) ⟨canonicalize, unique⟩ base hrefs l hl
   cases hc : canonicalize with
   | false =>
